@@ -454,7 +454,7 @@ def run(rep, tier="quick", srcdir=None, only=None):
 
 
 MANIFEST = {
-    "technique": "value-flow / dominating-condition rules on io.c's operation bookkeeping (LLVM IR), sibling agreement of result-code switches",
+    "technique": "value-flow / dominating-condition rules on io.c's operation bookkeeping (LLVM IR), sibling agreement of result-code switches + ring-buffer fill discipline (slot tested empty before store, index advanced only past a filled slot), who-may-write rule on the operation's parameter snapshot",
     "level": "narrow structural clauses only (each a necessary condition): high-water buffer sizing, kernel pointer/length window, progress accounting, offset of the "
              "reported unwritten remainder, stream-source suspend condition, result-code coverage of both consumers. Byte conservation under every kernel chunking, "
              "handler ordering and done-exactly-once across the ~40 block-literal functions chained through queues are NOT decided",
